@@ -109,6 +109,10 @@ func memGuard(f func()) uint64 {
 
 // hostileRead feeds stream to a Conn and runs the ReadMessage loop with a progress/step oracle.
 func hostileRead(x *explore.Ctx, stream []byte, readerIsServer, deflate bool, measure bool, key string) {
+	hostileReadProg(x, stream, readerIsServer, deflate, measure, key, false)
+}
+
+func hostileReadProg(x *explore.Ctx, stream []byte, readerIsServer, deflate bool, measure bool, key string, useReadMessage bool) {
 	nc := netsim.NewConn(stream)
 	nc.NoReadLog = true
 	var calls, delivered int
@@ -116,6 +120,21 @@ func hostileRead(x *explore.Ctx, stream []byte, readerIsServer, deflate bool, me
 	body := func() {
 		c := websocket.VerifNewConn(nc, readerIsServer, 0, 0, nil, deflate)
 		for calls = 0; calls < len(stream)+3; calls++ {
+			if useReadMessage {
+				_, p, err := c.ReadMessage()
+				delivered += len(p)
+				if err != nil {
+					// connection-level or message-level? ask once more
+					if _, r2, err2 := c.NextReader(); err2 != nil {
+						lastErr = err2
+						return
+					} else {
+						p2, _ := io.ReadAll(r2)
+						delivered += len(p2)
+					}
+				}
+				continue
+			}
 			_, r, err := c.NextReader()
 			if err != nil {
 				lastErr = err
@@ -194,7 +213,11 @@ func c07Frames(x *explore.Ctx, readerIsServer, deflate bool, op int) {
 		{Fin: true, Rsv1: true, Opcode: wsref.OpBinary, Masked: readerIsServer, Key: mk, Payload: []byte{0xff, 0xff}},
 		{Fin: true, Opcode: wsref.OpBinary, Masked: readerIsServer, Key: mk, LenForm: 64, ClaimLen: 1 << 62},
 	}
+	useRM := x.Pick(2, "readprog") == 1 // ReadMessage instead of NextReader+ReadAll (single-frame streams only)
 	for i := 0; i < 3; i++ {
+		if i > 0 && useRM {
+			break
+		}
 		if i > 0 {
 			m := x.Pick(len(menu)+1, fmt.Sprintf("f%d.menu", i))
 			if m == len(menu) {
@@ -205,15 +228,19 @@ func c07Frames(x *explore.Ctx, readerIsServer, deflate bool, op int) {
 		}
 		o := byte(op)
 		bits := x.Pick(32, fmt.Sprintf("f%d.bits", i))
-		lc := x.Pick(7, fmt.Sprintf("f%d.len", i))
+		lc := x.Pick(9, fmt.Sprintf("f%d.len", i))
 		supply := x.Pick(3, fmt.Sprintf("f%d.supply", i)) // all, half, none
 		f := wsref.Frame{Opcode: o, Fin: bits&1 == 0, Rsv1: bits&2 != 0, Rsv2: bits&4 != 0, Rsv3: bits&8 != 0, Masked: readerIsServer != (bits&16 != 0), Key: mk}
-		n := []int{0, 1, 125, 126, 70000, 0, 0}[lc]
+		n := []int{0, 1, 125, 126, 70000, 0, 0, 20000, 20000}[lc]
 		switch lc {
 		case 5:
 			f.LenForm, f.ClaimLen = 64, 1<<63|7
 		case 6:
 			f.LenForm, f.ClaimLen = 64, 1<<40
+		case 7: // a huge claim backed by 20000 real payload bytes
+			f.LenForm, f.ClaimLen = 64, 1<<62
+		case 8:
+			f.LenForm, f.ClaimLen = 64, 1<<28
 		}
 		f.Payload = Pattern(3, n)
 		if f.Rsv1 && deflate {
@@ -239,7 +266,7 @@ func c07Frames(x *explore.Ctx, readerIsServer, deflate bool, op int) {
 		}
 	}
 	x.NonTrivial()
-	hostileRead(x, stream, readerIsServer, deflate, x.Deviations() == 0, fmt.Sprintf("C07:frameseq:reader=%s:deflate=%v", roleName(readerIsServer), deflate))
+	hostileReadProg(x, stream, readerIsServer, deflate, x.Deviations() == 0, fmt.Sprintf("C07:frameseq:reader=%s:deflate=%v", roleName(readerIsServer), deflate), useRM)
 }
 
 var c07Replies = []string{
